@@ -196,6 +196,94 @@ func (g *G) emitHash(withEqual bool) {
 	})
 }
 
+// priors returns prior destination states for a deepcopy of src at the current type: tree-shaped,
+// sharing no memory with the source.
+func (g *G) priors(src *ty.Val) []*ty.Val {
+	u := g.env.Under(g.t)
+	var out []*ty.Val
+	switch u.K {
+	case ty.Ptr:
+		// a non-nil pointer to each of a few pool values of the target type (zero value first)
+		tp := g.vg.Pool(u.Elem)
+		for k, e := range tp {
+			if k >= 4 {
+				break
+			}
+			out = append(out, g.vg.Inst(&ty.Val{K: ty.VPtr, Elems: []*ty.Val{e}}))
+		}
+		if len(tp) > 4 {
+			out = append(out, g.vg.Inst(&ty.Val{K: ty.VPtr, Elems: []*ty.Val{tp[len(tp)-1]}}))
+		}
+	case ty.Slice:
+		n := len(src.Elems)
+		ep := g.vg.Pool(u.Elem)
+		for k := 0; k < 3; k++ {
+			el := make([]*ty.Val, n)
+			for i := range el {
+				el[i] = ep[(i+k*2)%len(ep)]
+			}
+			out = append(out, g.vg.Inst(&ty.Val{K: ty.VSlice, Spare: k, Elems: el}))
+		}
+	case ty.Map:
+		out = append(out, g.vg.Inst(&ty.Val{K: ty.VMap}))
+	}
+	return out
+}
+
+func (g *G) emitDeepCopy() {
+	i, gt, q := g.i, g.gt, g.q
+	fmt.Fprintf(q, "\nfunc DeepCopy_%d(dst, src %s) { deriveDeepCopy_%d(dst, src) }\n", i, gt, i)
+	body := fmt.Sprintf(`vx, vy := reflect.ValueOf(&x).Elem(), reflect.ValueOf(&y).Elem()
+		s0 := rt.NewObs().Observe(vx)
+		%s.DeepCopy_%d(y, x)
+		o := rt.NewObs()
+		o.Observe(vx)
+		o.SetSide(1)
+		sd := o.Observe(vy)
+		return rt.CopyAnswer(sd, reflect.DeepEqual(x, y), o.Overlaps(0, 1), s0 == rt.NewObs().Observe(vx))`, g.qn, i)
+	g.reg("deepcopy", 2, body)
+	g.reg("deepcopyx", 2, body)
+	for _, a := range g.pool {
+		src := g.vg.Inst(a)
+		for _, d := range g.priors(src) {
+			name := "deepcopy"
+			if src.K == ty.VNil {
+				name = "deepcopyx" // outside the property's precondition: correspondence only
+			}
+			g.ow.op(name, g.tn, src.Wire(), d.Wire())
+		}
+	}
+	g.withMutations(func(x, mu *ty.Val) {
+		for _, d := range g.priors(mu) {
+			if mu.K != ty.VNil {
+				g.ow.op("deepcopy", g.tn, mu.Wire(), d.Wire())
+			}
+			break
+		}
+	})
+}
+
+func (g *G) emitClone() {
+	i, gt, q := g.i, g.gt, g.q
+	fmt.Fprintf(q, "\nfunc Clone_%d(src %s) %s { return deriveClone_%d(src) }\n", i, gt, gt, i)
+	body := fmt.Sprintf(`vx := reflect.ValueOf(&x).Elem()
+		s0 := rt.NewObs().Observe(vx)
+		y := %s.Clone_%d(x)
+		vy := reflect.ValueOf(&y).Elem()
+		o := rt.NewObs()
+		o.Observe(vx)
+		o.SetSide(1)
+		sd := o.Observe(vy)
+		return rt.CopyAnswer(sd, reflect.DeepEqual(x, y), o.Overlaps(0, 1), s0 == rt.NewObs().Observe(vx))`, g.qn, i)
+	g.reg("clone", 1, body)
+	for _, a := range g.pool {
+		g.ow.op("clone", g.tn, g.vg.Inst(a).Wire())
+	}
+	g.withMutations(func(x, mu *ty.Val) {
+		g.ow.op("clone", g.tn, mu.Wire())
+	})
+}
+
 func main() {
 	flag.Parse()
 	rng := rand.New(rand.NewSource(*seed))
@@ -301,6 +389,12 @@ func main() {
 		}
 		if want["hash"] && gen.SupportedHash(env, t) {
 			g.emitHash(eq)
+		}
+		if want["deepcopy"] && gen.SupportedDeepCopy(env, t) {
+			g.emitDeepCopy()
+		}
+		if want["clone"] && gen.SupportedClone(env, t) {
+			g.emitClone()
 		}
 	}
 	m.WriteString("}\n")
